@@ -2,11 +2,13 @@ package scen
 
 import (
 	"fmt"
+	"io"
 	"math"
 	"strconv"
 	"strings"
 	"time"
 
+	"github.com/vbauerster/mpb/v8"
 	"github.com/vbauerster/mpb/v8/decor"
 	"mcrt"
 )
@@ -404,6 +406,56 @@ func c20Chunks(tier string) []SeqChunk {
 			}
 		}
 		rec(nil)
+	}})
+	// every sample reaches the built-in estimators however deeply they are wrapped (through a real bar)
+	chunks = append(chunks, SeqChunk{Name: "c20-wrapped", Gen: func(env *SeqEnv) {
+		for depth := 0; depth <= 3; depth++ {
+			for _, kind := range []string{"speed", "eta", "avgadjust"} {
+				id := fmt.Sprintf("wrapped kind=%s depth=%d", kind, depth)
+				env.Case(id, func() (string, bool, string, string) {
+					avg := &recAverage{}
+					var dec decor.Decorator
+					switch kind {
+					case "speed":
+						dec = decor.MovingAverageSpeed(decor.SizeB1024(0), "% .2f", avg)
+					case "eta":
+						dec = decor.MovingAverageETA(decor.ET_STYLE_GO, avg, nil)
+					case "avgadjust":
+						dec = decor.NewAverageETA(decor.ET_STYLE_GO, time.Unix(0, 0), nil)
+					}
+					inner := dec
+					for i := 0; i < depth; i++ {
+						switch i % 3 {
+						case 0:
+							dec = decor.OnComplete(dec, "done")
+						case 1:
+							dec = decor.OnAbort(dec, "aborted")
+						case 2:
+							dec = decor.Meta(dec, func(s string) string { return s })
+						}
+					}
+					p := mpb.New(mpb.WithOutput(io.Discard))
+					bar := p.AddBar(100, mpb.AppendDecorators(dec))
+					bar.EwmaIncrInt64(10, time.Second)
+					bar.EwmaIncrInt64(10, 3*time.Second)
+					adjusted := time.Unix(12345, 0)
+					bar.DecoratorAverageAdjust(adjusted)
+					traversed := 0
+					var reached decor.Decorator
+					bar.TraverseDecorators(func(d decor.Decorator) { traversed++; reached = d })
+					bar.Abort(true)
+					p.Shutdown()
+					out := fmt.Sprintf("adds=%v traversed=%d", avg.adds, traversed)
+					if kind != "avgadjust" && len(avg.adds) != 2 {
+						return out, true, "wrapped-sample-lost", fmt.Sprintf("%s decorator wrapped %d deep received %d of 2 samples", kind, depth, len(avg.adds))
+					}
+					if reached != inner {
+						return out, true, "wrapped-traverse", fmt.Sprintf("TraverseDecorators on a decorator wrapped %d deep did not reach the innermost decorator", depth)
+					}
+					return out, depth > 0, "", ""
+				})
+			}
+		}
 	}})
 	// clock-based decorators under the virtual clock: frozen after completion; no NaN/Inf (instrumented run only: the
 	// unmodified package reads the real clock, so these outputs are not part of the digest)
